@@ -43,6 +43,8 @@ def proj_chain(v):
 
 def describe(v):
     """normalise a result component: const, or (callee short name, projection chain)"""
+    if v[0] == 'c' and isinstance(v[1], tuple) and v[1][0] == 'b' and set(str(v[1][1])) <= {'0'}:
+        return ('empty', 'null')       # an all-zero pointer constant: the null pointer
     if v[0] == 'c':
         return ('const', v[1])
     # transparent wrappers
